@@ -6,6 +6,7 @@ mod hello;
 mod memtransport;
 mod meta;
 mod reply;
+mod sched;
 mod xmltok;
 mod ser;
 mod plan;
@@ -45,6 +46,7 @@ fn main() {
         "hello" => hello::main(&opts),
         "fuzz" => fuzz::main(&opts),
         "meta" => meta::main(&opts),
+        "sched" => sched::main(&opts),
         "daemon" => daemon::main(&opts),
         "ser" => ser::main(&opts),
         "plan" => plan::main(&opts),
